@@ -19,9 +19,16 @@ def run(tier: str) -> int:
         profiles.random_profile('rnd', False, True, 16, 80, ORACLES, actions_mode='bool',
                                 inputs=profiles.inputs_exhaustive(4, 5, cap_q=150, cap_t=700), per_tu=2),
         # every leaf rule: a leaf has no rewind guard of its own; it must not consume before it knows that it matches
-        profiles.atoms_profile('atoms', ORACLES, cap_q=160, per_tu=3),
+        profiles.atoms_profile('atoms', ORACLES, cap_q=160, cap_t=600, per_tu=3),
     ]
-    return engine.run_engine('C02', tier, ['PegtlVerif.Props.C02'], ps)
+    def shipped(v, cov, rng):
+        # the shipped grammars (json, uri, iri, http with its hand-written chunk rules, abnf, integer, raw_string, utf8/16/32, uintN,
+        # json_pointer, lua53, proto3) under a monitor control that checks the property at every invocation of every rule
+        from . import c03
+        st = c03.shipped_run(v, rng, tier, report='rewind')
+        cov['shipped_grammars_rewind_monitor'] = {k: st.get(k) for k in ('compiled', 'cases', 'by_grammar', 'results', 'rewind_violations')}
+        cov['evaluations'] += st.get('cases', 0)
+    return engine.run_engine('C02', tier, ['PegtlVerif.Props.C02'], ps, extra=shipped)
 
 
 def replay(path: str) -> int:
